@@ -184,10 +184,12 @@ impl StringHeap {
         let old_pos = reader.stream_position().unwrap();
 
         reader.seek(SeekFrom::Start(offset)).unwrap();
-        let mut next_char = reader.read_le::<u8>().unwrap() as char;
-        while next_char != '\0' {
-            string.push(next_char);
-            next_char = reader.read_le::<u8>().unwrap() as char;
+        // a string that runs into the end of the data simply ends there
+        while let Ok(next_char) = reader.read_le::<u8>() {
+            if next_char == 0 {
+                break;
+            }
+            string.push(next_char as char);
         }
         reader.seek(SeekFrom::Start(old_pos)).unwrap();
         string
